@@ -324,7 +324,11 @@ class Gen:
         return f"({at} {op} {bt})", ["bin", nm, aa, ba]
 
     def anymask(self, typ):
-        return self.lmask(typ) if self.r.random() < 0.35 else self.mask(typ)
+        if self.r.random() < 0.35:
+            t, a = self.lmask(typ)
+            if firstsec(a) is not None:     # a mask must be array-valued
+                return t, a
+        return self.mask(typ)
 
     def wassign(self, typ):
         r = self.r
@@ -385,10 +389,10 @@ class Gen:
         return [f"{ind}{wt}"], ["arr", self.tag, wa[1], wa[2], wa[3]], self.tag
 
     # ------------------------------------------------------------------ SELECT CASE
-    def select(self, live, ind, depth):
+    def select(self, live, ind, depth, force_logical=False, mkbody=None):
         r = self.r
         self.feats.add("select")
-        if r.random() < 0.3:
+        if force_logical or r.random() < 0.3:
             if r.random() < 0.6:
                 v = r.choice(self.lscal)
                 seltext, selast = v, ["var", self.id(v)]
@@ -438,8 +442,11 @@ class Gen:
             self.feats.add("select-default-pos-%s" % ("last" if clauses[-1][0] == "default" else "inner"))
         lines = [f"{ind}select case ({seltext})"]
         built = []
-        for kind, its in clauses:
-            blines, bast = self.block(live, r.choice([1, 1, 2]), ind + "  ", depth + 1, allow_empty=True)
+        for kidx, (kind, its) in enumerate(clauses):
+            if mkbody is not None:
+                blines, bast = mkbody(kidx, ind + "  ")
+            else:
+                blines, bast = self.block(live, r.choice([1, 1, 2]), ind + "  ", depth + 1, allow_empty=True)
             if kind == "default":
                 lines.append(f"{ind}case default")
                 built.append(("default", None, bast))
@@ -567,7 +574,10 @@ class Gen:
                 lines.append(f"{i2}{v} = {ct}")
                 asts.append(["assign", self.id(v), ca])
             else:
-                ls, a = self.select(live, i2, 5, force_logical=True, bodies=(inc(w), inc(16 * w), f"s0 = s0 + {w}", f"s0 = s0 + {16 * w}"))
+                ww = w
+                ls, a = self.select(live, i2, 5, force_logical=True,
+                                    mkbody=lambda kidx, bi: ([f"{bi}s0 = s0 + {ww * 16 ** kidx}"],
+                                                             ["seqs", inc(ww * 16 ** kidx)]))
                 lines += ls
                 asts.append(a)
             w *= 2
@@ -641,6 +651,9 @@ class Gen:
         for n in range(nrout):
             self.feats = set()
             lines, ast = self.block({}, r.randint(2, 5), "    ", 0)
+            if r.random() < 0.45:
+                tl, ta = self.truth_block("    ")
+                lines, ast = tl + lines, ["seqs", ta] + ast[1:]
             mod += [f"  subroutine r{n}()", "    integer :: i, j, k"] + lines + [f"  end subroutine r{n}"]
             p.routines.append(Routine(f"r{n}", "\n".join(lines), ast, True, set(self.feats)))
             p.feats |= self.feats
@@ -652,6 +665,21 @@ class Gen:
         main.append("end program p")
         p.source = "\n".join(mod + main) + "\n"
         return p
+
+
+def firstsec(a):
+    """first array section of an AExpr AST in pre-order (None if it has none)"""
+    if not isinstance(a, list) or not a:
+        return None
+    if a[0] == "sec":
+        return a
+    if a[0] in ("scal", "sum", "sumdim"):
+        return None
+    for y in a[1:]:
+        f = firstsec(y)
+        if f is not None:
+            return f
+    return None
 
 
 def squash(t):
